@@ -423,6 +423,9 @@ func (txn MapTxn[K, V]) Commit() (m Map[K, V]) {
 	default:
 		m.tree = txn.txn.Commit()
 		m.hasTree = true
+		// The transaction can still be used after Commit(), so do not let the
+		// next Tree.Txn() on the committed tree recycle it.
+		m.tree.prevTxn.CompareAndSwap(txn.txn, nil)
 	}
 	if m.singleton != nil {
 		m.hasTree = false
